@@ -589,3 +589,28 @@ def connect_response_table(ctx, rid):
     ctx.check(rid, "connect: SessionRejected causes", bool(rej) and all(
         any(re.search(r"^!StatusCode::is_successful\(", x) for x in a[-2:]) or any(re.search(r"write_frame\(.*\)\) as Err\)\.0 is Stopped$", x) for x in a[-2:]) for a, l in rej),
         "Endpoint::connect reports SessionRejected for a cause other than a non-2xx status / stopped request stream: %s" % [a[-1] for a, l in rej][:3], where(fn))
+
+
+def qstream_algebra(ctx, rid):
+    """QStreamId::from_session_id == >>2 ; into_stream_id == <<2 ; MAX == 2^60-1 ; try_from_varint guard <= MAX"""
+    A = ctx.A
+    f = A.fn("wtransport_proto::ids::QStreamId::from_session_id")
+    ls = sorted({path_sig(p)[1] for p in nonpanic(walk(f))})
+    ctx.check(rid, "from_session_id == id >> 2", ls == ["return QStreamId(VarInt::from_u64_unchecked(Shr(SessionId::into_u64(session_id),2)))"],
+              "QStreamId::from_session_id is not `session_id >> 2`: %s" % ls, where(f))
+    f = A.fn("wtransport_proto::ids::QStreamId::into_stream_id")
+    ls = sorted({path_sig(p)[1] for p in nonpanic(walk(f))})
+    ctx.check(rid, "into_stream_id == q << 2", ls == ["return StreamId::new(VarInt::from_u64_unchecked(Shl(VarInt::into_inner(self.0),2)))"],
+              "QStreamId::into_stream_id is not `q << 2`: %s" % ls, where(f))
+    f = A.fn("wtransport_proto::ids::QStreamId::into_session_id")
+    ls = sorted({path_sig(p)[1] for p in nonpanic(walk(f))})
+    ctx.check(rid, "into_session_id via into_stream_id", ls == ["return SessionId::from_session_stream_unchecked(QStreamId::into_stream_id(self))"],
+              "QStreamId::into_session_id changed: %s" % ls, where(f))
+    c = A.const("wtransport_proto::ids::QStreamId::MAX")
+    v = c.get("val", {}).get("int")
+    ctx.check(rid, "QStreamId::MAX == 2^60-1", v is not None and int(v) == SPEC["stream_id"]["qstream_max"], "QStreamId::MAX is %s" % v, c["at"]["sp"])
+    f = A.fn("wtransport_proto::ids::QStreamId::try_from_varint")
+    sg = sorted(path_sig(p) for p in nonpanic(walk(f)))
+    ctx.check(rid, "try_from_varint guard", [l for _, l in sg] == ["return Result::Err(InvalidQStreamId)", "return Result::Ok(QStreamId(varint))"] and
+              all(len(a) == 1 and "QStreamId::into_varint(QStreamId::MAX" in a[0] and "varint" in a[0] for a, _ in sg),
+              "QStreamId::try_from_varint is not `varint <= MAX`: %s" % sg, where(f))
